@@ -164,6 +164,11 @@ class CountSeq(CountGen):
 def make_source(src):
     n = src["n"]
     items = [i * 7 + 3 for i in range(n)]
+    if src.get("vals") == "mixed":
+        # what iterables hold in real programs: None, falsy values, strings, tuples -- not only positive integers
+        pool = [None, 0, "", False, (), 3.5, "x", None, [], 0.0, b"", (None,), -1]
+        off = src.get("voff", 0)
+        items = [pool[(i + off) % len(pool)] for i in range(n)]
     k = src["kind"]
     if k == "list":
         return items, list(items), None
@@ -269,6 +274,9 @@ def plan_wrap(S, prop, tier, avoid):
     if kind in ("countgen", "countseq") and chance(r, 0.25):
         src["fail_at"] = r.randrange(0, n + 1)
     ra = S.py("rangeargs")
+    if kind not in ("range", "ndarray") and chance(ra, 0.25):
+        src["vals"] = "mixed"
+        src["voff"] = ra.randrange(0, 13)
     if kind == "range" and chance(ra, 0.5):
         # ranges other than range(n): a start, a step, a range that ends at 0 or counts down (always n items)
         step = pick(ra, [1, 1, 1, 2, 3, -1, -1, -2])
@@ -382,6 +390,8 @@ def plan_pool(S, prop, tier, avoid):
     itemform = wpick(fr, [("list", 5), ("tuple", 1), ("gen", 2), ("iter", 1), ("map", 1), ("gen_pmap", 0.4)])
     if pipeline is None and n <= 8 and chance(fr, 0.05):
         work = "nested"
+    elif pipeline is None and chance(fr, 0.06):
+        work = "none"
     # what kind of callable the task is: a module-level function, a functools.partial, an object with __call__, a
     # bound method
     fnform = wpick(fr, [("func", 6), ("partial", 2), ("object", 1), ("method", 1)])
@@ -689,7 +699,8 @@ def execute_wrap(script, run, env):
                              % (inner_items, list(range(cfg["inner"]))))
             if judge:
                 run.checks += 1
-                if k >= n or not (v == items[k]):
+                same = k < n and (v == items[k] if src.get("vals") != "mixed" else (type(v) is type(items[k]) and v == items[k]))
+                if not same:
                     run.fail("prog.wrap.items", feats, "item #%d is %r, the source's is %r" % (k, v, items[k] if k < n else "<none>"))
                 if counter is not None and counter.pulls != len(received):
                     run.fail("prog.wrap.lazy", feats, "after %d items were received the source had been pulled %d times" % (len(received), counter.pulls))
@@ -766,6 +777,8 @@ def _inner_square(x):
 def _work(kind, payload):
     if kind == "square":
         return payload * payload + 1
+    if kind == "none":
+        return None                 # a task run for its side effect
     if kind == "nested":
         # the task uses the parallel map itself (a two-level computation): a pmap call that begins and ends inside a
         # worker of another pmap call
